@@ -301,7 +301,8 @@ def setter_frame_stream(ctx, rng, hist, divergences, violations):
     from props.parts import _tracksv2_gen as G
     nscripts = 10 if ctx.tier == "quick" else 120
     nsteps = 14 if ctx.tier == "quick" else 30
-    blobs = gen_foreign_blobs(rng, ctx.tier, hist, nscripts)
+    blobs_all = gen_foreign_blobs(rng, ctx.tier, hist, 2 * nscripts)
+    blobs, blobs2 = blobs_all[:len(blobs_all) // 2], blobs_all[len(blobs_all) // 2:]
     scripts, meta = [], []
     for k, pay in enumerate(blobs):
         schema = G.SCHEMAS[(ctx.seed + k) % len(G.SCHEMAS)] if ctx.tier == "quick" else G.SCHEMAS[k % len(G.SCHEMAS)]
@@ -311,12 +312,23 @@ def setter_frame_stream(ctx, rng, hist, divergences, violations):
         if isinstance(snap.get("sample_rate"), str) and snap.get("waveform"):
             snap["sample_rate"] = 44100.0
         sets = ", ".join("%s = X'%s'" % (c, _frame_blob(COLKIND[c], pay[c]).hex()) for c in COLS)
-        L = ["create %s mem" % schema, "mktrack ta " + G.fmt_snapshot(snap),
+        # the handle has already looked at its pad data when the foreign blobs arrive (another writer - Engine DJ
+        # itself - rewrote the columns behind the handle's back), and a second foreign writer does so again half-way
+        # through; on every other script two handle objects onto the track are used alternately (`+alias`).  A
+        # setter must work on what is STORED, not on what its handle remembers (round 5, seeded C04-5).
+        L = ["create %s mem%s" % (schema, " +alias" if k % 2 else ""), "mktrack ta " + G.fmt_snapshot(snap),
+             "get ta hot_cues", "get ta loops", "get ta main_cue", "get ta hot_cue_at 0", "get ta loop_at 0",
              "rawx " + _hx("UPDATE Track SET %s WHERE id = 1" % sets), READ]
         steps = []
         ncue = struct.unpack(">q", pay["quickCues"][:8])[0]
         nloop = struct.unpack("<q", pay["loops"][:8])[0]
         for j in range(nsteps):
+            if j == nsteps // 2 and k < len(blobs2):
+                pay2 = blobs2[k]
+                sets2 = ", ".join("%s = X'%s'" % (c, _frame_blob(COLKIND[c], pay2[c]).hex()) for c in COLS)
+                L += ["rawx " + _hx("UPDATE Track SET %s WHERE id = 1" % sets2), READ]
+                ncue = struct.unpack(">q", pay2["quickCues"][:8])[0]
+                nloop = struct.unpack("<q", pay2["loops"][:8])[0]
             f, v = gen_setter_step(rng, ctx.tier, 7000 * 100 + k * 100 + j, ncue, nloop)
             steps.append((len(L), f, v))
             L += ["set ta %s %s" % (f, v), READ]
@@ -346,11 +358,11 @@ def judge_frames(scripts, meta, hist, violations):
         if len(outs) < 4 or not outs[1].startswith("ok") or not outs[2].startswith("ok"):
             hist["frame:script_not_started"] = hist.get("frame:script_not_started", 0) + 1
             continue
-        prev = parse_read(outs[3])
         for (li, f, v) in meta[si]:
-            if li + 1 >= len(outs):
+            if li + 1 >= len(outs) or L[li - 1] != READ:
                 break
-            so, cur = outs[li], parse_read(outs[li + 1])
+            # every setter line stands between two raw reads of the five columns
+            prev, so, cur = parse_read(outs[li - 1]), outs[li], parse_read(outs[li + 1])
             replay = L[:li + 2]
             if so.startswith("ub") or so.startswith("skipped"):
                 violations.append({"tag": "oracle", "signature": None,
@@ -375,7 +387,6 @@ def judge_frames(scripts, meta, hist, violations):
                         checks.append((si, li, f, v, c, allowed[c], prev[c], cur[c], replay))
                         sdec += ["sdec %s %s" % (COLKIND[c], cd.hexb(prev[c])), "sdec %s %s" % (COLKIND[c], cd.hexb(cur[c]))]
                         hist["frame:changed:" + c] = hist.get("frame:changed:" + c, 0) + 1
-            prev = cur
     mo = [o for outs in runner.run_model(runner.shard(sdec, NCPU)) for o in outs] if sdec else []
     distinct = set()
     for k, (si, li, f, v, c, al, old, new, replay) in enumerate(checks):
@@ -405,7 +416,7 @@ def replay(ctx, hdr, body):
         steps = []
         for i, l in enumerate(lines):
             t = l.split(" ", 3)
-            if t[0] == "set" and i + 1 < len(lines) and lines[i + 1] == READ:
+            if t[0] == "set" and 0 < i and i + 1 < len(lines) and lines[i + 1] == READ and lines[i - 1] == READ:
                 steps.append((i, t[2], t[3] if len(t) > 3 else ""))
         viol, hist = [], {}
         judge_frames([lines], [steps], hist, viol)
@@ -422,6 +433,8 @@ def replay(ctx, hdr, body):
         if l.startswith("reenc") and h.startswith("ok"):
             k, px = l.split()[1], l.split()[2]
             pb = b"" if px == "-" else bytes.fromhex(px)
+            if l.startswith("reencz "):     # a stored blob: the payload is what the stream inflates to
+                pb = zlib.decompress(pb[4:])
             t = h.split()
             got = b"" if len(t) < 2 or t[1] == "-" else (None if t[1] == "UNFRAMED" else bytes.fromhex(t[1]))
             good = good and got == norm_bool(k, pb)
@@ -463,6 +476,45 @@ def tie(ctx):
             violations.append({"tag": "oracle", "signature": None,
                                "header": {"kind": "bytes", "what": "from_blob/to_blob crashed: " + h},
                                "body": [l, "impl: " + h]})
+    # stored blobs whose 4-byte length prefix disagrees with what their zlib stream inflates to (an inconsistent
+    # foreign writer): whatever the decoder accepts must re-encode to the payload the STREAM holds, byte for byte
+    # (round 5, seeded C04-4: output buffer sized from the prefix and never trimmed - spurious zero bytes landed in
+    # extra_data and were written back)
+    pref_items = []
+    cand = [(k, p) for (k, p, stream), h in zip(items, hout) if k != "v2.loops" and h.startswith("ok") and len(p) > 0]
+    rng.shuffle(cand)
+    for (k, p) in cand[:(50 if ctx.tier == "quick" else 600)]:
+        z = zlib.compress(p, rng.choice([1, 6, 9]))
+        for d in rng.sample([1, 2, 6, 100, 16384, -1, -3, len(p), 0], 3):
+            n = len(p) + d
+            if 1 <= n < 2 ** 24:
+                pref_items.append((k, p, struct.pack(">I", n) + z, d))
+    plines = ["reencz %s %s" % (k, cd.hexb(b)) for (k, p, b, d) in pref_items]
+    if plines:
+        psc = runner.shard(plines, NCPU)
+        pho = [o for (outs, _) in runner.run_harness(psc, stateless=True) for o in outs]
+        pmo = [o for outs in runner.run_model(psc) for o in outs]
+        for (k, p, b, d), l, h, m in zip(pref_items, plines, pho, pmo):
+            key = "prefix:" + ("exact" if d == 0 else "over" if d > 0 else "under")
+            hist[key] = hist.get(key, 0) + 1
+            if h != m:
+                divergences.append({"input": l[:400], "impl": h[:200], "model": m[:200]})
+            if h.startswith("ok"):
+                t = h.split()
+                got = b"" if len(t) < 2 or t[1] == "-" else (None if t[1] == "UNFRAMED" else bytes.fromhex(t[1]))
+                hist[key + ":accepted"] = hist.get(key + ":accepted", 0) + 1
+                if got != norm_bool(k, p):
+                    violations.append({"tag": "oracle", "signature": None,
+                                       "header": {"kind": "bytes",
+                                                  "what": "re-encoding an accepted blob whose length prefix is off by %d "
+                                                          "changed its payload" % d},
+                                       "body": [l, "impl: " + h[:600], "want: ok " + cd.hexb(norm_bool(k, p))[:600]]})
+                elif d != 0:
+                    distinct.add(l)
+            elif not h.startswith("throw"):
+                violations.append({"tag": "oracle", "signature": None,
+                                   "header": {"kind": "bytes", "what": "from_blob/to_blob crashed: " + h},
+                                   "body": [l, "impl: " + h]})
     hist.update({"stream:" + k: v for k, v in st.items()})
     hist.update({"accepted:" + k: v for k, v in accepted.items()})
     fr_eval, fr_distinct = setter_frame_stream(ctx, random.Random(ctx.seed * 6700417 + 44), hist, divergences, violations)
@@ -477,7 +529,7 @@ def tie(ctx):
     unknown = [v for v in violations if v["signature"] is None]
     return {
         "ok": not divergences and not unknown,
-        "evaluations": len(lines) + fr_eval,
+        "evaluations": len(lines) + len(plines) + fr_eval,
         "distinct_nontrivial": len(distinct) + fr_distinct,
         "rule": "2.x payloads from the Spec/Model encoder with arbitrary entry counts (0..12), flag bytes (0..255), unknown "
                 "int fields and extra_data, the same with trailing bytes appended, every flag value planted in quick "
